@@ -131,8 +131,13 @@ func c02Gen(c *engine.C) engine.Case {
 	layout, _ := pickLayout(c)
 	svc := &jg.Class{Pkg: "app", Name: "Svc", Kind: "class", Mods: []string{"public"},
 		Imports: []string{"lib.Repo", "other.Tool", "java.util.List"}}
-	if c.Bool("import-suffix-collision") {
+	switch engine.Pick(c, "import-suffix-collision", "none", "type-name-ends-with-imported-type-name", "type-name-ends-with-own-method-name") {
+	case "type-name-ends-with-imported-type-name":
 		svc.Imports = append([]string{"lib2.SuperRepo"}, svc.Imports...)
+		c.Tag("import-suffix-collision")
+	case "type-name-ends-with-own-method-name":
+		// an imported type whose simple name merely ends with the name of a method called without a receiver
+		svc.Imports = append([]string{"extra.UndoIt"}, svc.Imports...)
 		c.Tag("import-suffix-collision")
 	}
 	svc.Members = append(svc.Members,
